@@ -292,10 +292,18 @@ bool ComponentEntity::doEquals(const EntityPtr &other) const
         if ((componentEntity != nullptr)
             && pFunc()->mEncapsulationId == componentEntity->encapsulationId()
             && pFunc()->mComponents.size() == componentEntity->componentCount()) {
+            // Match every child component with a child component of the other entity that has not been matched yet.
+            std::vector<ComponentPtr> unmatchedComponents;
+            for (size_t i = 0; i < componentEntity->componentCount(); ++i) {
+                unmatchedComponents.push_back(componentEntity->component(i));
+            }
             for (const auto &component : pFunc()->mComponents) {
-                if (!componentEntity->containsComponent(component, false)) {
+                auto result = std::find_if(unmatchedComponents.begin(), unmatchedComponents.end(),
+                                           [=](const ComponentPtr &c) -> bool { return c->equals(component); });
+                if (result == unmatchedComponents.end()) {
                     return false;
                 }
+                unmatchedComponents.erase(result);
             }
             return true;
         }
